@@ -25,6 +25,8 @@ def run(ctx, sess):
     ctx.rule('C03.c', 'chunk then link: every data chunk is linked only after it was completely written')
     ctx.rule('C03.g', 'a track head never points at a chunk that is not in the file: a head table entry changes once, from zero to the offset of a chunk written before the store (a stop between the two leaves the head at zero, not dangling)')
     ctx.rule('C03.h', 'a stop between two complete writes never leaves a rewritten payload with its old CRC: every payload that is rewritten in place (jls_raw_wr_payload called outside the append operation) reaches the backend, together with its CRC footer, as one write (traced for the constant length the caller passes)')
+    ctx.rule('C03.i', 'pointer repair writes the chunk it cut: after `X.hdr.item_next = 0` on a local chunk X every path reaches jls_core_update_chunk_header(core, &X) for the same X before X is re-assigned or the function returns')
+    ctx.rule('C03.j', 'repair appends END at the end of the file: in jls_rd_open no path leads from a call that can move the file position (pointer repair, scans, FSR rebuild) to jls_core_wr_end without passing jls_raw_seek_end')
     ctx.rule('C03.d', 'truncation is reachable only from the repair branch of jls_rd_open')
     ra(ctx, P)
     seq = rb(ctx, P)
@@ -33,6 +35,8 @@ def run(ctx, sess):
     re_(ctx, P)
     rf_(ctx, P)
     single_write_rule(ctx, P)
+    cut_link_rule(ctx, P)
+    end_at_end_rule(ctx, P)
     from .c14 import head_table_rule, WRITER_ROOT_PREFIXES
     roots = sorted(f.name for f in P.all_functions() if f.api and f.name.startswith(WRITER_ROOT_PREFIXES))
     head_table_rule(ctx, P, P.reachable_from(roots), 'C03.g')
@@ -397,3 +401,56 @@ def single_write_rule(ctx, P):
                'payload and CRC footer leave in one backend write' if len(nw) == 1 else
                '%d backend writes (payload, then pad + CRC): a writer stopped between them leaves the new payload with the old CRC and the next open fails on that chunk' % len(nw))
     ctx.floor('in-place payload rewrites', n, 1)
+
+
+def cut_link_rule(ctx, P):
+    fn = P.fn('jls_track_repair_pointers')
+    ctx.saw(fn, 1)
+    n = 0
+    for ev in fn.stores():
+        lhs, rhs, o = ev.store_parts()
+        p = fn.path(strip_casts(lhs))
+        if p is None or p.last_field() != 'item_next' or rhs is None or const_of(rhs) != 0 or p.root_kind != 'local':
+            continue
+        x = p.root
+        n += 1
+
+        def on_event(e2, facts, x=x):
+            if e2.k == 'call' and e2.callee == 'jls_core_update_chunk_header':
+                a = strip_casts(e2.args[1])
+                tgt = strip_casts(a['k'][0]).get('name') if (a.get('op') == 'un' and a.get('o') == '&') else None
+                return 'stop' if tgt == x else None
+            if e2.k == 'store':
+                l2 = strip_casts(e2.store_parts()[0])
+                if l2.get('op') == 'ref' and l2.get('name') == x:
+                    return 'target'          # X re-assigned before it was written
+            if e2.k == 'ret':
+                return 'target'
+            return None
+        w = find_path(fn, ev, on_event, refine=False)
+        ctx.ob('C03.i', w is None, fn.name, 'cut of %s.hdr.item_next is written' % x, ev.where(),
+               'followed by jls_core_update_chunk_header(core, &%s) on every path' % x if w is None else
+               'the link of %s is cleared in memory but another chunk (or none) is rewritten: the dangling link stays in the file and repair appends a chunk of another kind at that offset' % x,
+               w.render() if w else None)
+    ctx.floor('link cuts in pointer repair', n, 3)
+
+
+def end_at_end_rule(ctx, P):
+    fn = P.fn('jls_rd_open')
+    ctx.saw(fn, 1)
+    movers = set(g.name for g in P.all_functions() if 'jls_raw_chunk_seek' in P.reachable_from([g.name])) | {'jls_raw_chunk_seek', 'jls_raw_chunk_next'}
+    ends = list(fn.calls('jls_core_wr_end'))
+    n = 0
+    for e_ in ends:
+        n += 1
+        bad = None
+        for mv in [c for c in fn.calls() if c.callee in movers]:
+            w = find_path(fn, mv, lambda e2, facts: 'stop' if (e2.k == 'call' and e2.callee == 'jls_raw_seek_end') else ('target' if e2 is e_ else None), refine=False)
+            if w is not None:
+                bad = (mv, w)
+                break
+        ctx.ob('C03.j', bad is None, fn.name, 'END is appended at the end of the file', e_.where(),
+               'jls_raw_seek_end lies between every position-changing call and jls_core_wr_end' if bad is None else
+               'after %s() the file position can be in the middle of the file when END is written: END overwrites a valid chunk (a file without FSR signals never seeks back to the end)' % bad[0].callee,
+               bad[1].render() if bad else None)
+    ctx.floor('END writes in repair', n, 1)
